@@ -37,16 +37,35 @@ the line answers X, one cent above it answers Y":
       (do let a0 <- Statutory.amount ...; let a1 <- ...
           pure (allTrue [lineGives year<y> Y<y>.c_<form> <inst> Y<y>.c_<form>_l<k>_<line> [inputs] [values] (expected), ...])) = some true
 
+In the generated text the statement of an obligation is `def <id>_check : Option Bool := (do ...)` and the theorem is
+`theorem <id> : <id>_check = some true`.  Starting a kernel check costs about half a second in this sandbox while one
+more evaluation inside a running check costs about 0.05 s, so the holding obligations of a module are decided TOGETHER
+(`theorem c08_batch_<year>_<k> : allSome [<id>_check, ...] = true := by decide +kernel`) and each `<id>` is projected out
+of the batch with `C08.allSome_cons` (no re-evaluation, no definitional unfolding).  `--no-batch` gives one
+`decide +kernel` per obligation (about four times slower; useful to locate a disagreement).
+
 Each evaluation is first decided here by running the REAL code on the same stores (typed values, `MissingInput` /
-`UnmetDependency` for names outside the stores).  When some evaluation fails, the obligation is emitted as
+`UnmetDependency` for names outside the stores).  When some evaluation fails, the obligation is emitted on its own as
 
     -- FAILED-OBLIGATION <id> <witness json>
-    theorem <id> : (...) = some false := by decide +kernel          (the proved negation)
+    theorem <id> : <id>_check = some false := by decide +kernel      (the proved negation)
     theorem <id>_rest : (... failing points dropped ...) = some true (when points remain)
 
 so everything else keeps being checked; if the real code and the Lean model ever disagree on an evaluation the generated
 module does not build, which is the intended alarm.  Output is deterministic.  Only files written by this generator are
 touched.
+
+Map entries (tools/c08_map.json).  `thresholds`: {form, name, amount[, instance, times]}.  `lines`: {form, line[, years,
+instance], checks: [...]}; a check has `amount` (names the obligation), optional `tag`, `years`, `statuses` (default: the
+five statuses when a mentioned amount depends on the status, else the single pseudo-status `all`), `per_status`,
+`inputs` / `values` (the tiny stores; names without a dot are relative to the form; values: true/false, ints,
+`{"f": expr}` float, `{"i": expr}` int, `"$status"` / `"$status:mfj"` the filing-status member, other strings) and the
+evaluations: explicit `points` [{inputs, values, expect, what}] and/or the shorthands
+`echo` (the line returns the amount: {type, times}), `gate` ({probe: "v:<line>" | "i:<input>", of: expr, delta, below, at,
+above}: the probe is set to the amount -delta / +0 / +delta and the outcomes are as given) and `coef` ({probe, n, op:
+mul|div, type}: probe n gives n x amount, or probe n x amount gives n).  expr: a decimal string or {amt, times, plus, div}.
+expect: {float: expr} | {int: expr} | {bool: b} | {str: s} | "notimpl" | {needV: line}.  `ignore`: {form, line, values,
+why[, years]}: literals deliberately not checked, with the reason.
 """
 import argparse
 import json
@@ -231,7 +250,7 @@ def render_spec(data):
     L.append('')
     L.append('/-- amounts used by the shipped forms for which NO value is recorded (not covered by C08) -/')
     L.append('def unverified : List (String × String) := [')
-    L.append(',\n'.join(f'  ({lean_str(u["id"])}, {lean_str(u["what"] + " -- " + u["why"])})' for u in data.get('unverified', [])))
+    L.append(',\n'.join(f'  ({lean_str(u["id"])}, {lean_str(u["what"] + ": " + u["why"])})' for u in data.get('unverified', [])))
     L.append(']')
     L.append('')
     L.append('end HabuVerif.Spec.Statutory')
@@ -576,6 +595,7 @@ def comment_safe(s):
 
 
 CHUNK = 60      # obligations per generated module (modules are checked in parallel by lake)
+BATCH = True    # prove the holding obligations of a module by one kernel evaluation (--no-batch: one each)
 
 
 class Module(object):
@@ -594,11 +614,15 @@ class Module(object):
 
 
 class Chunked(object):
-    """a year's obligations spread over modules of at most CHUNK theorems (one `add` call per obligation)"""
+    """a year's obligations spread over modules of at most CHUNK obligations.  Inside a module the holding
+    obligations are proved TOGETHER by one kernel evaluation (`c08_batch_<year>_<k>`): starting a kernel check costs
+    about half a second in this sandbox while one more evaluation inside a running check costs about 0.05 s; each
+    obligation's own theorem is then a projection of the batch (`allSome_cons`), which re-evaluates nothing."""
 
-    def __init__(self, year, doc):
-        self.year, self.doc = year, doc
+    def __init__(self, year, doc, batch=True):
+        self.year, self.doc, self.batch = year, doc, batch
         self.parts = []
+        self.held = []
         self.count = CHUNK
 
     @property
@@ -607,12 +631,38 @@ class Chunked(object):
 
     def begin(self):
         if self.count >= CHUNK:
+            self.flush()
             self.parts.append(Module(self.year, self.doc, part=len(self.parts)))
             self.count = 0
         self.count += 1
 
     def add(self, *ls):
         self.parts[-1].add(*ls)
+
+    def hold(self, oid):
+        self.held.append(oid)
+
+    def flush(self):
+        if not self.parts or not self.held:
+            self.held = []
+            return
+        m = self.parts[-1]
+        if not self.batch:
+            for oid in self.held:
+                m.add(f'theorem {oid} : {oid}_check = some true := by decide +kernel', '')
+            self.held = []
+            return
+        bname = f'c08_batch_{self.year}_{len(self.parts) - 1}'
+        m.add(f'/-- the {len(self.held)} holding obligations of this module, decided by ONE kernel evaluation -/',
+              f'theorem {bname} : allSome [', ',\n'.join(f'    {oid}_check' for oid in self.held),
+              '  ] = true := by decide +kernel', '')
+        for k, oid in enumerate(self.held):
+            term = bname
+            for _ in range(k):
+                term = f'(allSome_cons _ _ {term}).2'
+            m.add(f'theorem {oid} : {oid}_check = some true := (allSome_cons _ _ {term}).1')
+        m.add('')
+        self.held = []
 
 
 def lean_store(pairs):
@@ -636,16 +686,18 @@ class Registry(object):
         self.failed = []
 
     def emit(self, mod, oid, rec, binds, items, oks, witnesses):
-        """items/oks parallel; emits the theorem (or negation + rest)"""
-        if hasattr(mod, 'begin'):
-            mod.begin()
+        """items/oks parallel.  A holding obligation becomes `def <oid>_check`, a member of the module's batch theorem
+        and `theorem <oid> : <oid>_check = some true` (projected out of the batch without re-evaluation); a failing one
+        is emitted on its own as the proved negation (+ `<oid>_rest`)."""
+        mod.begin()
         rec = dict(rec, id=oid, module=mod.name, holds=all(oks), points=len(items))
+        mod.add(f'def {oid}_check : Option Bool :=\n  {statement(binds, items)}', '')
         if all(oks):
-            mod.add(f'theorem {oid} :\n  {statement(binds, items)} = some true := by decide +kernel', '')
+            mod.hold(oid)
         else:
             for w in witnesses:
                 mod.add(f'-- FAILED-OBLIGATION {oid} {comment_safe(json.dumps(w, sort_keys=True, default=str))}')
-            mod.add(f'theorem {oid} :\n  {statement(binds, items)} = some false := by decide +kernel', '')
+            mod.add(f'theorem {oid} : {oid}_check = some false := by decide +kernel', '')
             rest = [it for it, ok in zip(items, oks) if ok]
             if rest:
                 mod.add(f'theorem {oid}_rest :\n  {statement(binds, rest)} = some true := by decide +kernel', '')
@@ -677,7 +729,7 @@ def gen_year(year, stat, cmap, reg, notes):
     doc = [f'# C08 obligations for tax year {year} (GENERATED by tools/gen_c08.py -- do not edit)', '',
            'One theorem per (year, filing status, statutory amount, site); see `Refl/C08Checks.lean` for the',
            'checks and `Spec/Statutory.lean` for the published amounts they are compared with.']
-    mod = Chunked(year, doc)
+    mod = Chunked(year, doc, batch=BATCH)
     n_before = len(reg.obligations)
     not_covered = []
 
@@ -776,10 +828,11 @@ def gen_year(year, stat, cmap, reg, notes):
                                      'real': show_out(out), 'cite': stat.cite(year, chk['amount'])})
                 tag = ('_' + lean_ident(chk['tag'])) if chk.get('tag') else ''
                 oid = f'c08_{year}_{status}_{chk["amount"]}__ln_{lean_ident(form)}_{lean_ident(line)}{tag}'
-                reg.emit(mod, oid, {'property': 'C08', 'year': year, 'status': status, 'amount': chk['amount'],
+                reg.emit(mod, oid, {'property': 'C08', 'year': year, 'status': status, 'amount': chk['amount'], 'amounts': aids,
                                     'site': f'ln:{fname}.{line}', 'kind': 'line',
                                     'check': chk.get('what', 'the line, evaluated at the published amount and one step either side, answers as published')},
                          [(names[a], year, lk, a) for a in aids], items, oks, wits)
+    mod.flush()
     return mod, not_covered, len(reg.obligations) - n_before
 
 
@@ -840,8 +893,16 @@ def generate(out_dir, check_mirror=True):
     files['c08_failed.json'] = json.dumps(reg.failed, indent=1, sort_keys=True, default=str) + '\n'
     uncovered = [dict(year=int(y), **{k: s.get(k) for k in ('kind', 'form', 'line', 'name', 'value', 'statuses', 'class', 'state')})
                  for y, ss in survey.items() for s in ss if s['state'] in ('uncovered', 'mismatch')]
+    seen = set()
+    for ob in reg.obligations:
+        for a in ob.get('amounts', [ob['amount']]):
+            for st in (STATUSES if ob['status'] == 'all' else [ob['status']]):
+                seen.add((ob['year'], st, a))
+    no_site = sorted({(int(y), a['id']) for a in data['amounts'] for y in a['values']
+                      if not any((int(y), st, a['id']) in seen for st in STATUSES)})
     files['c08_obligations.json'] = json.dumps(
         {'summary': summary, 'obligations': reg.obligations, 'not_covered_triples': not_covered,
+         'table_entries_without_site': [{'year': y, 'amount': a} for y, a in no_site],
          'uncovered_sites': uncovered, 'unverified_amounts': data.get('unverified', []), 'notes': notes},
         indent=1, sort_keys=True, default=str) + '\n'
     for fn, text in files.items():
@@ -856,7 +917,10 @@ def main(argv=None):
     ap.add_argument('--write-spec')
     ap.add_argument('--no-mirror-check', action='store_true')
     ap.add_argument('--quiet', action='store_true')
+    ap.add_argument('--no-batch', action='store_true', help='one kernel evaluation per obligation (slow; to locate a model/real disagreement)')
     args = ap.parse_args(argv)
+    global BATCH
+    BATCH = not args.no_batch
     if args.write_spec:
         with open(args.write_spec, 'w', encoding='utf-8') as fh:
             fh.write(render_spec(load_statutory()))
